@@ -523,6 +523,8 @@ func (stmt *Statement) clone() *Statement {
 		Context:              stmt.Context,
 		RaiseErrorOnNotFound: stmt.RaiseErrorOnNotFound,
 		SkipHooks:            stmt.SkipHooks,
+		attrs:                stmt.attrs,
+		assigns:              stmt.assigns,
 	}
 
 	if stmt.SQL.Len() > 0 {
